@@ -15,7 +15,8 @@ REPORT_ABANDONED = True    # contamination or a leak after an abandoned scan is 
 
 
 class Rules:
-    """rules: list of dict(name, ns, g, p, atom) ; atom: ('T',) ('F',) ('S',i) ('C',i,n) ('Z',n) ('U',off,v)"""
+    """rules: list of dict(name, ns, g, p, atom) ; atom: ('T',) ('F',) ('S',i) ('C',i,n) ('Z',n) ('U',off,v)
+    ('E',n) entrypoint == n   ('A',i) $s at entrypoint"""
 
     def __init__(self, rules):
         self.rules = rules
@@ -29,11 +30,12 @@ class Rules:
                 cmds.append("ns " + ("-" if cur == 0 else "ns%d" % cur))
             a = r["atom"]
             strs = ""
-            if a[0] in "SC":
+            if a[0] in "SCA":
                 strs = 'strings: $s = "%s" ' % PATS[a[1]].decode()
             cond = {"T": "true", "F": "false", "S": "$s", "C": "#s == %d" % (a[2] if a[0] == "C" else 0),
                     "Z": "filesize == %d" % (a[1] if a[0] == "Z" else 0),
-                    "U": "uint8(%d) == %d" % ((a[1], a[2]) if a[0] == "U" else (0, 0))}[a[0]]
+                    "U": "uint8(%d) == %d" % ((a[1], a[2]) if a[0] == "U" else (0, 0)),
+                    "E": "entrypoint == %d" % (a[1] if a[0] == "E" else 0), "A": "$s at entrypoint"}[a[0]]
             cmds.append("add " + hexs("%s%srule %s { %scondition: %s }" % ("global " if r["g"] else "", "private " if r["p"] else "",
                                                                          r["name"], strs, cond)))
         return cmds + ["getrules", "scanner 0", "pcb"]
@@ -47,7 +49,8 @@ class Rules:
         for r in self.rules:
             a = r["atom"]
             s = {"T": "T", "F": "F", "S": "S%d" % a[1] if a[0] == "S" else "", "C": "C%d=%d" % (a[1], a[2]) if a[0] == "C" else "",
-                 "Z": "Z%d" % a[1] if a[0] == "Z" else "", "U": "U%d=%d" % (a[1], a[2]) if a[0] == "U" else ""}[a[0]]
+                 "Z": "Z%d" % a[1] if a[0] == "Z" else "", "U": "U%d=%d" % (a[1], a[2]) if a[0] == "U" else "",
+                 "E": "E%d" % a[1] if a[0] == "E" else "", "A": "A%d" % a[1] if a[0] == "A" else ""}[a[0]]
             out.append("%d:%d:%d:%s" % (order.index(r["ns"]), r["g"], r["p"], s))
         return ",".join(out)
 
@@ -60,8 +63,14 @@ PATHEX = ",".join(p.hex() for p in PATS)
 
 
 def model_cmd(rules, flags, script, fsz, blocks, pattern):
-    """blocks: list of (base, bytes or None, size)"""
-    bl = ",".join("%d:null:%d" % (b, sz) if d is None else "%d:%s" % (b, d.hex() if d else "-") for b, d, sz in blocks) or "-"
+    """blocks: list of (base, bytes or None, size[, entry point offset yr_get_entry_point_offset returns for the block or None])"""
+    def one(t):
+        b, d, sz = t[:3]
+        ep = t[3] if len(t) > 3 else None
+        if d is None:
+            return "%d:null:%d" % (b, sz)
+        return "%d:%s" % (b, d.hex() if d else "-") + ("" if ep is None else ":e%d" % ep)
+    bl = ",".join(one(t) for t in blocks) or "-"
     return "c13 %s %s - %d %s %s %s %s" % (PATHEX, rules.model(), flags, script, "-" if fsz is None else str(fsz), bl, pattern or "-")
 
 
@@ -85,7 +94,7 @@ def parse_model(line, rules):
                     r = rules.rules[int(t[1:])]
                     a = r["atom"]
                     final.append((t[0], "default" if r["ns"] == 0 else "ns%d" % r["ns"], r["name"],
-                                  matches[a[1]] if a[0] in "SC" else None))
+                                  matches[a[1]] if a[0] in "SCA" else None))
                 else:
                     final.append(("F",))
     summ = dict(x.split("=") for x in segs[-1].split(" "))
@@ -111,6 +120,44 @@ def compositions(n, maxparts):
         for cuts in itertools.combinations(range(1, n), k - 1):
             b = [0] + list(cuts) + [n]
             yield [(b[i], b[i + 1]) for i in range(k)]
+
+
+def _put(b, off, val, n):
+    b[off:off + n] = val.to_bytes(n, "little")
+
+
+def exe_block(kind, size, entry_off):
+    """a block that starts with a minimal executable header; returns (bytes, what yr_get_entry_point_offset gives for it).
+    The filler never contains one of PATS; "abc" is planted at the entry point offset."""
+    b = bytearray(b"x" * size)
+    if kind in ("elf32", "elf32-nophdr"):
+        b[0:84] = bytes(84)
+        b[0:7] = b"\x7fELF\x01\x01\x01"
+        _put(b, 16, 2, 2); _put(b, 18, 3, 2); _put(b, 20, 1, 4); _put(b, 24, 0x08048000 + entry_off, 4)
+        _put(b, 28, 52, 4); _put(b, 40, 52, 2); _put(b, 42, 32, 2); _put(b, 44, 0 if kind == "elf32-nophdr" else 1, 2); _put(b, 46, 40, 2)
+        _put(b, 52, 1, 4); _put(b, 56, 0, 4); _put(b, 60, 0x08048000, 4); _put(b, 64, 0x08048000, 4)
+        _put(b, 68, size, 4); _put(b, 72, size, 4); _put(b, 76, 5, 4); _put(b, 80, 0x1000, 4)
+        ep = 0 if kind == "elf32-nophdr" else entry_off      # unmappable entry: the function answers 0, not undefined
+    elif kind == "elf64":
+        b[0:120] = bytes(120)
+        b[0:7] = b"\x7fELF\x02\x01\x01"
+        _put(b, 16, 2, 2); _put(b, 18, 62, 2); _put(b, 20, 1, 4); _put(b, 24, 0x400000 + entry_off, 8)
+        _put(b, 32, 64, 8); _put(b, 52, 64, 2); _put(b, 54, 56, 2); _put(b, 56, 1, 2); _put(b, 58, 64, 2)
+        _put(b, 64, 1, 4); _put(b, 68, 5, 4); _put(b, 72, 0, 8); _put(b, 80, 0x400000, 8); _put(b, 88, 0x400000, 8)
+        _put(b, 96, size, 8); _put(b, 104, size, 8); _put(b, 112, 0x1000, 8)
+        ep = entry_off
+    elif kind == "pe":
+        b[0:316] = bytes(316)
+        b[0:2] = b"MZ"
+        _put(b, 60, 64, 4)
+        b[64:68] = b"PE\0\0"
+        _put(b, 68, 0x14c, 2); _put(b, 70, 0, 2); _put(b, 84, 224, 2); _put(b, 86, 0x102, 2)
+        _put(b, 88, 0x10b, 2); _put(b, 104, entry_off, 4)
+        ep = entry_off                                        # no sections: rva == offset
+    else:
+        raise ValueError(kind)
+    b[entry_off:entry_off + 3] = b"abc"
+    return bytes(b), ep
 
 
 def run(chk):
@@ -398,6 +445,84 @@ def run(chk):
     else:
         obs["abandoned_scan_leakcheck"] = "skipped in the quick tier: no cached ASan build of this tree (runs in the thorough tier)"
 
+    # ------------------------------------------------------------ part 4: entry point across a resumed scan (resume_keeps_entry_point)
+    # the first block (or, mirror case, a later one) starts with a minimal ELF32 / ELF64 / PE header; rules use the
+    # `entrypoint` keyword; not-ready answers at every call, in particular after the header block was consumed
+    P1, P2 = b"xxabcxxbcaxx", b"bcabca"
+    ecases4, eplan4 = [], []
+    for kind, size, eoff in (("elf32", 128, 100), ("elf64", 160, 130), ("pe", 340, 320), ("elf32-nophdr", 128, 100)):
+        H, ep = exe_block(kind, size, eoff)
+        H2, ep2 = exe_block("elf32", 112, 90)
+        rules = mk([("E", eoff), ("E", 0), ("A", 0), ("E", 90), ("S", 0), ("C", 0, 2), ("A", 1)], [(0, 0, 0)] * 5 + [(0, 1, 0), (0, 0, 0)])
+        seqs = [[(H, ep), (P1, None)], [(H, ep), (P1, None), (P2, None)], [(P1, None), (H, ep), (P2, None)],
+                [(H, ep), (H2, ep2)], [(P2, None), (H2, ep2), (H, ep)]]
+        if kind == "elf32":
+            seqs.append([(P1, None), (P2, None)])
+        cmds = rules.commands()
+        plan = []
+        for seq in seqs:
+            blocks, base = [], 0
+            for d, e in seq:
+                blocks.append((base, d, len(d), e))
+                base += len(d)
+            nb = len(blocks)
+            L = nb + (2 if quick else 3)
+            pats = ["".join(p) for n in range(0, L + 1) for p in itertools.product("01", repeat=n)]
+            pats = [p for p in pats if p == "" or p.endswith("1")]
+            cmds.append("blocks %d %s" % (base, " ".join("%d:%s" % (b, vlib.hx(d)) for b, d, _, _ in blocks)))
+            hdr_idx = min(i for i, (_, e) in enumerate(seq) if e is not None) if any(e is not None for _, e in seq) else None
+            for p in pats:
+                cmds += ["notready " + (p or "-"), "piter", "ploop 40"]
+                plan.append((blocks, base, p, hdr_idx))
+        ecases4.append(("ep_" + kind, cmds))
+        eplan4.append((rules, kind, plan))
+    o4, _ = vlib.run_cases(h, ecases4, timeout=900)
+    m4 = [model_cmd(rules, 0, "-", fsz, blocks, p) for rules, kind, plan in eplan4 for blocks, fsz, p, _ in plan]
+    ml4, _ = vlib.run_lines(model, m4, timeout=900)
+    n_ep = n_ep_after = 0
+    mi = 0
+    for (cid, cmds), (rules, kind, plan) in zip(ecases4, eplan4):
+        lines = o4.get(cid, [])
+        if any(l.startswith("crash") for l in lines) or not any(l == "getrules rc=0" for l in lines):
+            chk.violation("crash", "entry-point case %s crashed or did not compile: %s" % (cid, [l for l in lines if "crash" in l or "errors=" in l][:3]),
+                          {"harness_commands": cmds[:12]}, found_input=False)
+            mi += len(plan)
+            continue
+        runs, cur = [], []
+        for l in lines:
+            if l.startswith("scan msgs="):
+                cur.append(l)
+            elif l.startswith("ploop "):
+                runs.append(cur)
+                cur = []
+        for ri, (blocks, fsz, p, hdr_idx) in enumerate(plan):
+            mline, mcmd = ml4[mi], m4[mi]
+            mi += 1
+            mcalls, mfinal, summ = parse_model(mline, rules)
+            icalls, ifinal = impl_calls(runs[ri]) if ri < len(runs) else ([], None)
+            conforming = summ.get("conforming") == "true"
+            n_ep += 1
+            # not-ready after the header block was consumed: at least hdr_idx + 1 ready answers before a '1'
+            after = hdr_idx is not None and any(c == "1" and p[:i].count("0") >= hdr_idx + 1 for i, c in enumerate(p))
+            n_ep_after += bool(after) and conforming
+            replay = {"rules": rules.describe(), "header": kind, "blocks": [(b, "%d bytes%s" % (sz, "" if e is None else ", executable header, entry point offset %d" % e)) for b, d, sz, e in blocks],
+                      "notready_pattern": p, "conforming": conforming,
+                      "harness_commands": rules.commands() + ["blocks %d %s" % (fsz, " ".join("%d:%s" % (b, vlib.hx(d)) for b, d, _, _ in blocks)),
+                                                              "notready " + (p or "-"), "piter", "ploop 40"],
+                      "model_command": mcmd, "impl": runs[ri] if ri < len(runs) else None, "model": mline,
+                      "one_shot": "same harness_commands with 'notready -'"}
+            if summ.get("driver_agrees") != "true":
+                chk.violation("model-internal", "extracted rs_run and the call-by-call driver disagree: " + mline[-200:], replay, found_input=False)
+            if icalls != mcalls:
+                chk.violation("entrypoint-calls:" + ("conforming" if conforming else "outside-contract"),
+                              "%s header, pattern %s: sequence of calls differs: impl=%s model=%s" % (kind, p or "-", icalls, mcalls), replay)
+            elif ifinal != mfinal:
+                chk.violation("entrypoint:" + ("resumed" if p else "one-shot") + (":conforming" if conforming else ":outside-contract"),
+                              "%s header, not-ready pattern %s: rules using entrypoint are reported differently from the model (= the one-shot scan): "
+                              "impl=%s model=%s" % (kind, p or "-", [m[:3] for m in ifinal or []], [m[:3] for m in mfinal or []]), replay)
+            elif after and conforming and kind != "elf32-nophdr":
+                chk.sample({"header": kind, "blocks": replay["blocks"], "pattern": p, "model": mline[-160:]}, cap=6)
+
     # ------------------------------------------------------------ exploration (outside the proved statements)
     # (b) an iterator whose first() rewinds before it knows whether it is ready: the retry (which calls next()) skips block 0
     r2 = mk([("C", 0, 2)])
@@ -408,9 +533,9 @@ def run(chk):
         "position_keeping": str(fin["keep"]), "rewinding": str(fin["naive"]), "first_block_lost": fin["keep"][1] != fin["naive"][1],
         "what": "capi.rst does not say that after a not-ready first() the scanner continues with next(); an iterator that "
                 "sets its position in first() before the readiness test loses block 0 on the retry"}
-    chk.note(evaluations=n_runs + n_entry + n_aband, distinct_nontrivial=len([d for d in distinct if "1" in d[2]]),
-             traces_validated_against_impl=n_runs + n_entry + n_aband, interrupted_runs=n_interrupted, conforming_patterns=n_conf,
-             patterns_outside_contract=n_nonconf, follow_up_scans=n_follow, entry_point_scans=n_entry, abandoned_scan_scenarios=n_aband, observations=obs,
+    chk.note(evaluations=n_runs + n_entry + n_aband + n_ep, distinct_nontrivial=len([d for d in distinct if "1" in d[2]]),
+             traces_validated_against_impl=n_runs + n_entry + n_aband + n_ep, interrupted_runs=n_interrupted, conforming_patterns=n_conf,
+             patterns_outside_contract=n_nonconf, follow_up_scans=n_follow, entry_point_scans=n_entry, abandoned_scan_scenarios=n_aband, entrypoint_runs=n_ep, entrypoint_runs_interrupted_after_header_block=n_ep_after, observations=obs,
              rule="one evaluation = one complete run (all calls until the scan completes) or one entry-point scan; distinct = different "
                   "(buffer, block partition incl. null-data blocks, file_size known?, not-ready pattern); non-trivial = at least one "
                   "not-ready answer")
@@ -422,7 +547,10 @@ def run(chk):
         "patterns outside the contract (not ready during the re-iteration done by rule evaluation) are compared with the model too "
         "(the read is undefined, the scan succeeds); they are outside resume_equivalent's premise",
         "yr_scanner_scan_mem's TOO_SLOW_SCANNING pre-check (buffers > 200000 bytes with a root-state atom) is not modelled: buffers stay small",
-        "mmap / open / fstat of filemap.c are exercised, not modelled; an empty file is modelled as data = NULL, size 0"]
+        "mmap / open / fstat of filemap.c are exercised, not modelled; an empty file is modelled as data = NULL, size 0",
+        "yr_get_entry_point_offset is an oracle of the model: the generator builds minimal ELF32 / ELF64 / PE headers and tells the model "
+        "the offset they map the entry point to (an ELF whose entry cannot be mapped gives 0, not undefined); the one-shot run of every "
+        "block sequence is compared with the model too, which checks those claims"]
 
 
 def replay(chk, path):
